@@ -151,6 +151,9 @@ func (w *W) RunBehaviour(cases []*BCase) ([]*BOutcome, error) {
 // NotContains marks an element of MErr.Contains / Expect.Err as "the error text must NOT contain the rest".
 const NotContains = "\x00not:"
 
+// EndsWith marks an element as "the error text must end with the rest" (what a message wrapped in prefixes keeps).
+const EndsWith = "\x00ends:"
+
 type Expect struct {
 	Text   string   // canonical text (value)
 	Err    []string // expected error substrings
@@ -280,6 +283,9 @@ func CompareSession(exp []Expect, res []ProbeResult) (bad int, msg string, compa
 					}
 					continue
 				}
+				if _, end := strings.CutPrefix(s, EndsWith); end {
+					continue // a panic value carries a stack behind the message
+				}
 				if !strings.Contains(r.Panic, s) {
 					return i, fmt.Sprintf("expected a panic containing %q, observed %s", e.Err, obs), compared, false
 				}
@@ -295,6 +301,12 @@ func CompareSession(exp []Expect, res []ProbeResult) (bad int, msg string, compa
 				if rest, neg := strings.CutPrefix(s, NotContains); neg {
 					if strings.Contains(r.Err, rest) {
 						return i, fmt.Sprintf("expected an error that does not contain %q, observed %s", rest, obs), compared, false
+					}
+					continue
+				}
+				if rest, end := strings.CutPrefix(s, EndsWith); end {
+					if !strings.HasSuffix(r.Err, rest) {
+						return i, fmt.Sprintf("expected an error ending with %q, observed %s", rest, obs), compared, false
 					}
 					continue
 				}
